@@ -554,6 +554,7 @@ pub fn run_engine(s: &mut Src, ctx: &mut Ctx) -> Verdict {
                 if step % 2 == 1 {
                     prem.reverse();
                 }
+                dup_premises(&mut prem, step);
                 eng.tms_mut().add_logical_justification(hs[*t], rule_of(*t, step), prem);
             }
             Op::Ret(x) => {
@@ -644,7 +645,9 @@ pub fn run_tms(s: &mut Src, ctx: &mut Ctx) -> Verdict {
                 hs.push(h);
             }
             Op::Just(t, p) => {
-                tms.add_logical_justification(hs[*t], rule_of(*t, step), p.iter().map(|&q| hs[q]).collect());
+                let mut prem: Vec<FactHandle> = p.iter().map(|&q| hs[q]).collect();
+                dup_premises(&mut prem, step);
+                tms.add_logical_justification(hs[*t], rule_of(*t, step), prem);
             }
             Op::Ret(x) => {
                 returned = Some(tms.retract_with_cascade(hs[*x]));
@@ -708,6 +711,15 @@ pub fn run_tms(s: &mut Src, ctx: &mut Ctx) -> Verdict {
     }
     finish(ctx, &cl, shape, &ops);
     Verdict::Pass
+}
+
+/// A premise LIST may name a fact more than once (a rule whose two patterns matched the same fact): the justification
+/// needs that fact once. On every third step a one- or two-premise list is padded with a repetition of its first
+/// entry (so `[A]` arrives as `[A, A]`, the length of an earlier `[A, B]`). A pure function of the step: no draw.
+fn dup_premises(prem: &mut Vec<FactHandle>, step: usize) {
+    if step % 3 == 0 && !prem.is_empty() && prem.len() <= 2 {
+        prem.push(prem[0]);
+    }
 }
 
 /// Source rule of a justification. All justifications of one fact name the same rule (a rule that derives the same
